@@ -72,16 +72,30 @@ def suite_c03(r, n):
                 evs = ["e%d:a" % i for i in range(n - 1, -1, -1)] + ["b:a"] + ["x%d:%s/%s" % (i, res, e) for i in range(n)]
                 return ";".join(evs) + " R=" + res + "/" + e
             mwexpect = (trace(k1 + k2, "-" if cbase == "k" else "B", "a|"), trace(k3, "-" if pbase == "k" else "B", "a|m0"))
-            meta.append((p, line, expect, "%s:%s:%s:%s%s%s" % (transport, proto, kind, "oneway" if m["oneway"] else "twoway", ":inherited" if inherited else "", ":void" if m["ret"] is None else ""), mwlines, mwexpect, (k1, k2, k3)))
+            meta.append((p, line, expect, "%s:%s:%s:%s%s%s" % (transport, proto, kind, "oneway" if m["oneway"] else "twoway", ":inherited" if inherited else "", ":void" if m["ret"] is None else ""), mwlines, mwexpect, (k1, k2, k3), (m["name"], "%s/%s" % skey, len(m["args"])), m["oneway"]))
     res, err = build_and_run(progs, jobs)
     if res is None:
         OracleFail("valid IDL with services was not compiled to Go that builds", {"op": "build", "detail": err[:3000]})
         Stat("evaluations"); Finish(); return
     if err: OracleFail("the runner crashed while executing generated code", {"op": "run", "detail": err[:2000]})
-    for (p, line, expect, tag, mwlines, mwexpect, ks), real in zip(meta, res):
+    for (p, line, expect, tag, mwlines, mwexpect, ks, hinfo, oneway_m), real in zip(meta, res):
         if real is None: real = "no-result"
         segs = real.split(" || ")
         real = segs[0]
+        hseg = [x for x in segs[1:] if x.startswith("H ")]
+        segs = [segs[0]] + [x for x in segs[1:] if not x.startswith("H ")]
+        if hseg:
+            # C09 through generated code: the handler sees exactly the caller's user headers; every response header the
+            # handler sets is on the caller's context when a reply was read (not for oneway)
+            meth, skey_s, nargs = hinfo
+            nh = nargs % 4
+            want_h = "{" + "".join("u%d-%s=v%d é %s;" % (i, meth, i, skey_s) for i in range(nh)) + "}"
+            want_r = "{}" if oneway_m else "{" + "".join("r-u%d-%s=v%d é %s;" % (i, meth, i, skey_s) for i in range(nh)) + "}"
+            got = hseg[0]
+            if got != "H hdr=%s rsp=%s" % (want_h, want_r):
+                OracleFail("the request context did not travel with the generated call and back (user request headers at the handler / response headers at the caller)",
+                           {"op": "g9", "case": tag, "line": line, "got": got[:600], "want": "H hdr=%s rsp=%s" % (want_h, want_r)})
+            Stat("hdrs:%d" % nh)
         if len(segs) == 3:
             ctrace, ptrace = segs[1], segs[2]
             Case(mwlines[0], "ok " + ctrace)
